@@ -95,14 +95,18 @@ func copyBlock(v reflect.Value, block Block) error {
 			return fmt.Errorf("found field %q but is unexported", f.Name)
 		}
 
-		namei := f.Index[0]
+		// f may be promoted from an embedded struct: follow the whole index path
+		fv, ferr := v.FieldByIndexErr(f.Index)
+		if ferr != nil {
+			return fmt.Errorf("field %q: %w", f.Name, ferr)
+		}
 		if x == nil {
 			return fmt.Errorf("block.%s has nil value, cannot be stored in struct.%s", name, f.Name)
 		}
 		vx := reflect.ValueOf(x)
 
 		if vx.Type().AssignableTo(blockType) {
-			return copyBlock(v.Field(namei), x.(Block))
+			return copyBlock(fv, x.(Block))
 		}
 
 		if st, bt := f.Type, vx.Type(); !bt.AssignableTo(st) {
@@ -112,7 +116,7 @@ func copyBlock(v reflect.Value, block Block) error {
 			)
 		}
 
-		v.Field(namei).Set(vx)
+		fv.Set(vx)
 		return nil
 	}
 
